@@ -29,6 +29,7 @@
  * ------------------------------------------------------------------------ */
 
 static PStructElem          pLabelElement;
+static struct sSymbolEntry* pLabelStructEntry;
 static struct sSymbolEntry* pLabelEntry;
 static LargeWord            LabelValue;
 
@@ -44,6 +45,7 @@ static LargeWord            LabelValue;
 void LabelReset(void) {
     FlushPendingPhaseError();
     pLabelElement = NULL;
+    pLabelStructEntry = NULL;
     pLabelEntry   = NULL;
     LabelValue    = (LargeWord)-1;
 }
@@ -99,6 +101,7 @@ Boolean LabelPresent(void) {
 void LabelHandle(tStrComp const* pName, LargeWord Value, Boolean ForceGlobal) {
     FlushPendingPhaseError();
     pLabelElement = NULL;
+    pLabelStructEntry = NULL;
     pLabelEntry   = NULL;
 
     /* structure element ? */
@@ -111,7 +114,7 @@ void LabelHandle(tStrComp const* pName, LargeWord Value, Boolean ForceGlobal) {
 
         pLabelElement->Offset = Value;
         if (AddStructElem(pInnermostNamedStruct->StructRec, pLabelElement)) {
-            AddStructSymbol(pLabelElement->pElemName, Value);
+            pLabelStructEntry = AddStructSymbol(pLabelElement->pElemName, Value);
         }
     }
 
@@ -148,6 +151,9 @@ void LabelModify(LargeWord OldValue, LargeWord NewValue) {
     if (OldValue == LabelValue) {
         if (pLabelElement) {
             pLabelElement->Offset = NewValue;
+            if (pLabelStructEntry) {
+                ChangeSymbol(pLabelStructEntry, NewValue + StructParentOffset());
+            }
         }
         if (pLabelEntry) {
             ChangeSymbol(pLabelEntry, NewValue);
